@@ -65,6 +65,8 @@ func genMCSpecs(rng *rand.Rand, dim int, bmin, bmax V) []*spec {
 }
 
 func mcSection3(c *vlib.Case) {
+	tl := newTally(c)
+	defer tl.flush()
 	rng := c.Rng
 	p := genPrim3(rng)
 	for p.kind == "Cone" { // its apex makes the surface probe unsound; covered as a solid elsewhere
@@ -86,13 +88,14 @@ func mcSection3(c *vlib.Case) {
 		c.Violationf("model3d.TransformSolid/bounds-valid", wit(js, "object", p.kind), "transformed solid has invalid bounds %v %v", tmin, tmax)
 		return
 	}
+	// resolve the thinnest extent with a few cells, but keep the grid bounded
 	size := boxScale(tmin, tmax)
-	delta := size / float64(8+rng.Intn(8))
+	delta := math.Max(minExtent(tmin, tmax, 3)/float64(3+rng.Intn(4)), size/48)
 	iters := 6 + rng.Intn(4)
-	c.Count("mc3d.cases", 1)
-	c.Count("mc3d.objects."+p.kind, 1)
+	tl.Count("mc3d.cases", 1)
+	tl.Count("mc3d.objects."+p.kind, 1)
 	for _, s := range specs {
-		c.Count("mc3d.transforms."+s.Kind, 1)
+		tl.Count("mc3d.transforms."+s.Kind, 1)
 	}
 
 	ref1 := model3d.MarchingCubesSearch(ts, delta, iters)
@@ -113,12 +116,12 @@ func mcSection3(c *vlib.Case) {
 	conjTris := vlib.Tris(conj)
 	w := wit(js, "object", p.desc, "delta", delta, "iters", iters, "faces", len(conjTris))
 	if len(conjTris) == 0 {
-		c.Sample("mc3d.empty", 3, wit(js, "object", p.desc, "delta", delta, "ref_faces", len(refTris)))
 		c.Undecided("mc3d.empty-mesh")
 		return
 	}
 	c.Nontrivial(fmt.Sprintf("mc3|%s|%v|%v", p.kind, js.describe(), delta))
-	c.Count("mc3d.faces", int64(len(conjTris)))
+	c.Sample("mc3d", 2, w)
+	tl.Count("mc3d.faces", int64(len(conjTris)))
 	if ok, why := vlib.EqualCanonTris(vlib.CanonTris(mapped), vlib.CanonTris(conjTris)); !ok {
 		c.Violationf("model3d.MarchingCubesConj/equals-search-of-transformed-solid-mapped-back", w,
 			"MarchingCubesConj differs from MarchingCubesSearch(TransformSolid(...)) mapped through the inverse: %s", why)
@@ -141,13 +144,13 @@ func mcSection3(c *vlib.Case) {
 			a := newAcc()
 			r.fwd(v, a)
 			if !(a.G*a.K <= 100) {
-				c.Count("mc3d.vertices_skipped_ill_conditioned", 1)
+				tl.Count("mc3d.vertices_skipped_ill_conditioned", 1)
 				continue
 			}
 			rad := 4*a.G*a.K*res + 1e-9*(1+a.M)
 			if rad > 0.02*objSize {
 				// the probe argument needs a radius far below the feature size
-				c.Count("mc3d.vertices_skipped_coarse", 1)
+				tl.Count("mc3d.vertices_skipped_coarse", 1)
 				continue
 			}
 			in, out := false, false
@@ -163,7 +166,7 @@ func mcSection3(c *vlib.Case) {
 					out = true
 				}
 			}
-			c.Count("mc3d.vertices_probed", 1)
+			tl.Count("mc3d.vertices_probed", 1)
 			if !(in && out) && bad == 0 {
 				bad++
 				w2 := wit(js, "object", p.desc, "delta", delta, "iters", iters, "vertex", v, "probe_radius", rad)
@@ -175,6 +178,8 @@ func mcSection3(c *vlib.Case) {
 }
 
 func mcSection2(c *vlib.Case) {
+	tl := newTally(c)
+	defer tl.flush()
 	rng := c.Rng
 	// triangles with very acute corners defeat the 32-direction surface probe
 	p := genPrim2Raw(rng, math.Pi/6)
@@ -194,12 +199,12 @@ func mcSection2(c *vlib.Case) {
 	ts := model2d.TransformSolid(joined, solid)
 	tmin, tmax := from2(ts.Min()), from2(ts.Max())
 	size := boxScale(tmin, tmax)
-	delta := size / float64(8+rng.Intn(12))
+	delta := math.Max(minExtent(tmin, tmax, 2)/float64(3+rng.Intn(6)), size/200)
 	iters := 6 + rng.Intn(4)
-	c.Count("mc2d.cases", 1)
-	c.Count("mc2d.objects."+p.kind, 1)
+	tl.Count("mc2d.cases", 1)
+	tl.Count("mc2d.objects."+p.kind, 1)
 	for _, s := range specs {
-		c.Count("mc2d.transforms."+s.Kind, 1)
+		tl.Count("mc2d.transforms."+s.Kind, 1)
 	}
 	var ref1, ref2 *model2d.Mesh
 	if pn := callSafely(func() {
@@ -225,13 +230,13 @@ func mcSection2(c *vlib.Case) {
 	}
 	conjSegs := vlib.Segs(conj)
 	if len(conjSegs) == 0 {
-		c.Sample("mc2d.empty", 3, wit(js, "object", p.desc, "delta", delta, "ref_faces", len(refSegs)))
 		c.Undecided("mc2d.empty-mesh")
 		return
 	}
 	w := wit(js, "object", p.desc, "delta", delta, "iters", iters, "faces", len(conjSegs))
 	c.Nontrivial(fmt.Sprintf("mc2|%s|%v|%v", p.kind, js.describe(), delta))
-	c.Count("mc2d.faces", int64(len(conjSegs)))
+	c.Sample("mc2d", 2, w)
+	tl.Count("mc2d.faces", int64(len(conjSegs)))
 	if ok, why := vlib.EqualCanonSegs(vlib.CanonSegs(mapped), vlib.CanonSegs(conjSegs)); !ok {
 		c.Violationf("model2d.MarchingSquaresConj/equals-search-of-transformed-solid-mapped-back", w,
 			"MarchingSquaresConj differs from MarchingSquaresSearch(TransformSolid(...)) mapped through the inverse: %s", why)
@@ -253,12 +258,12 @@ func mcSection2(c *vlib.Case) {
 			a := newAcc()
 			r.fwd(v, a)
 			if !(a.G*a.K <= 100) {
-				c.Count("mc2d.vertices_skipped_ill_conditioned", 1)
+				tl.Count("mc2d.vertices_skipped_ill_conditioned", 1)
 				continue
 			}
 			rad := 4*a.G*a.K*res + 1e-9*(1+a.M)
 			if rad > 0.02*objSize {
-				c.Count("mc2d.vertices_skipped_coarse", 1)
+				tl.Count("mc2d.vertices_skipped_coarse", 1)
 				continue
 			}
 			in, out := false, false
@@ -274,7 +279,7 @@ func mcSection2(c *vlib.Case) {
 					out = true
 				}
 			}
-			c.Count("mc2d.vertices_probed", 1)
+			tl.Count("mc2d.vertices_probed", 1)
 			if !(in && out) && bad == 0 {
 				bad++
 				w2 := wit(js, "object", p.desc, "delta", delta, "iters", iters, "vertex", v, "probe_radius", rad)
@@ -394,9 +399,9 @@ func matchTris(want, got []vlib.Tri, tol float64) bool {
 }
 
 func mcSections(r *vlib.Run) {
-	r.Section("mc3d", r.N(300, 5000), vlib.SectionOpts{}, mcSection3)
-	r.Section("mc2d", r.N(600, 12000), vlib.SectionOpts{}, mcSection2)
-	r.Section("mesh", r.N(1500, 30000), vlib.SectionOpts{}, meshSection)
+	r.Section("mc3d", r.N(700, 9000), vlib.SectionOpts{}, mcSection3)
+	r.Section("mc2d", r.N(2000, 24000), vlib.SectionOpts{}, mcSection2)
+	r.Section("mesh", r.N(4000, 48000), vlib.SectionOpts{}, meshSection)
 }
 
 func minExtent(lo, hi V, dim int) float64 {
